@@ -9,6 +9,7 @@
 EXTENDS Netcode, Json
 
 CONSTANTS MaxSteps, Addrs, Dts, CraftToks, MaxPresent, Calls, PropsOn, Export, ExportAll, ExportOneIn,
+          PumpPay,                    \* does the server application send a payload to every id in every good round
           HealRounds, HealDt, Bound   \* bounded liveness: after the fault phase the network heals and HealRounds good rounds follow
 
 VARIABLES w, obs, ctl, hist
@@ -128,11 +129,14 @@ AHeal == /\ HealRounds > 0 /\ ~ctl.healed
          /\ hist' = IF Export THEN Append(hist, [a |-> "mark", mark |-> "heal", cs |-> CliNames, bound |-> Bound]) ELSE hist
          /\ ctl' = [ctl EXCEPT !.healed = TRUE]
          /\ UNCHANGED w
+IdSeq == SortedIds({Tokens[t].id : t \in DOMAIN Tokens})
+PayNow == IF PumpPay THEN [i \in 1..Len(IdSeq) |-> [id |-> IdSeq[i], tag |-> 7000 + 10 * ctl.rounds + i]] ELSE <<>>
 APump == /\ ctl.healed /\ ctl.rounds < HealRounds
-         /\ LET r == DoPump(w, CliNames, HealDt) IN
+         /\ LET r == DoPump(w, CliNames, HealDt, PayNow) IN
             /\ w' = r.w
             /\ obs' = FoldObs(obs, r.evs, 1)
-         /\ hist' = IF Export THEN Append(hist, [a |-> "pump", cs |-> CliNames, dt |-> HealDt, n |-> 1]) ELSE hist
+         /\ hist' = IF Export THEN Append(hist, [a |-> "pump", cs |-> CliNames, dt |-> HealDt, n |-> 1,
+                                                 spay |-> [i \in 1..Len(PayNow) |-> <<PayNow[i].id, PayNow[i].tag>>]]) ELSE hist
          /\ ctl' = [ctl EXCEPT !.rounds = @ + 1]
 
 Ids == {Tokens[t].id : t \in DOMAIN Tokens}
